@@ -353,6 +353,74 @@ func c02Units(ctx *core.Ctx) []core.Unit {
 			}})
 		}
 	}
+	us = append(us, core.Unit{Name: "many openings (n = 1025: more than 1024 powers of r) and the powers themselves", Run: func(ctx *core.Ctx, r *core.Result) {
+		needRef()
+		c := conf()
+		// the challenge powers, directly
+		x := prfR(ctx.Seed, "c02pow", 0)
+		xe := frFromBig(x)
+		for _, n := range []int{1, 2, 3, 31, 32, 33, 255, 256, 257, 1023, 1024, 1025, 1026, 2047, 2048, 2049, 4097} {
+			var pw []fr.Element
+			in := fmt.Sprintf("PowersOf(x, %d)", n)
+			if !guard(r, "c02.panic", "common.PowersOf", in, func() { pw = common.PowersOf(xe, n) }) {
+				continue
+			}
+			r.Evals++
+			r.Nontrivial++
+			if len(pw) != n {
+				vio(r, "c02.powers", "common.PowersOf", in, fmt.Sprintf("%d powers", n), fmt.Sprint(len(pw)))
+				continue
+			}
+			p := bi(1)
+			for i := 0; i < n; i++ {
+				if frToBig(pw[i]).Cmp(p) != 0 {
+					vio(r, "c02.powers", "common.PowersOf", in, fmt.Sprintf("result[%d] = x^%d", i, i), frToBig(pw[i]).Text(16))
+					break
+				}
+				p = ref.MulR(p, x)
+			}
+		}
+		// a statement with more openings than any internal chunk size; honest and with one wrong claim late in the list
+		polys := polyAlphabet(ctx.Seed)
+		n := 1025
+		s := stmt{label: "vt"}
+		for i := 0; i < n; i++ {
+			s.zs = append(s.zs, (i*7)%256)
+			s.polys = append(s.polys, pick(polys, 8+i%6))
+		}
+		base := honestTuple(c, s)
+		for _, mod := range []string{"honest", "y_1024+1", "y_1023+1 and y_1024 adjusted", "swap openings 1023,1024"} {
+			t := base.clone()
+			one := fr.One()
+			switch mod {
+			case "y_1024+1":
+				t.ys[1024].Add(&t.ys[1024], &one)
+			case "y_1023+1 and y_1024 adjusted":
+				// a compensating pair of false claims that is accepted iff openings 1023 and 1024 get the same weight
+				t.zs[1024] = t.zs[1023]
+				t.ys[1023].Add(&t.ys[1023], &one)
+				t.ys[1024].Sub(&t.ys[1024], &one)
+			case "swap openings 1023,1024":
+				t.Cs[1023], t.Cs[1024] = t.Cs[1024], t.Cs[1023]
+				t.ys[1023], t.ys[1024] = t.ys[1024], t.ys[1023]
+				t.zs[1023], t.zs[1024] = t.zs[1024], t.zs[1023]
+			}
+			desc := fmt.Sprintf("%d openings :: %s", n, mod)
+			ok, err, ran := decideImpl(r, c, t, desc)
+			if !ran {
+				continue
+			}
+			acc, shape := decideRef(t)
+			r.Evals++
+			r.Nontrivial++
+			if ok != acc || (err != nil) != shape {
+				vio(r, "c02.agree", "CheckMultiProof", desc, fmt.Sprintf("reference verifier: accepted=%v", acc), fmt.Sprintf("accepted=%v err=%v", ok, err))
+			} else if (mod == "honest") != ok {
+				vio(r, "c02.reject", "CheckMultiProof", desc, fmt.Sprintf("accepted=%v", mod == "honest"), fmt.Sprintf("accepted=%v (reference agrees)", ok))
+			}
+		}
+		r.Sample(map[string]interface{}{"openings": n, "variants": "honest; wrong y at 1024; compensating wrong claims at 1023/1024; transposition 1023<->1024"})
+	}})
 	us = append(us, core.Unit{Name: "shape errors", Run: func(ctx *core.Ctx, r *core.Result) {
 		needRef()
 		c := conf()
